@@ -221,13 +221,27 @@ inline void genGeometryParams(SolverCfg& s)
 {
     s.Rmax = rpick({1.3, 1.3, 1.0, 2.0});
     if (s.geometry == 1) {
-        if (rint(0, 1) == 0) {
+        switch (rweighted({4, 4, 1, 1, 1})) {
+        case 0:
             s.kappa_eps = 0.3;
             s.delta_e   = 0.2;
-        }
-        else {
+            break;
+        case 1:
             s.kappa_eps = runi(0.0, 0.5);
             s.delta_e   = runi(0.0, 0.4 * (1 - s.kappa_eps));
+            break;
+        case 2: // the command-line defaults of -k / -d: the Shafranov mapping degenerates to the circle (still valid)
+            s.kappa_eps = 0.0;
+            s.delta_e   = 0.0;
+            break;
+        case 3:
+            s.kappa_eps = 0.0;
+            s.delta_e   = runi(0.0, 0.4);
+            break;
+        default:
+            s.kappa_eps = runi(0.0, 0.5);
+            s.delta_e   = 0.0;
+            break;
         }
     }
     else if (s.geometry == 2) {
